@@ -6,6 +6,7 @@ from hypothesis import strategies as st
 
 from pbt import gen, ci as cim, im as imm, ti as tim, manifests as mf
 from pbt.props import c06
+from pbt import rules
 from pbt.runner import must, check, Violation, HarnessError
 
 PROPERTY = "C07"
@@ -21,7 +22,7 @@ RULE = ("A valid current-version document of each format (text written by the li
         "structurally mutated documents (delete / null / int / str / list / empty / swap at any JSON path or INI option): IF "
         "the load succeeds THEN dumps() succeeds, its reload succeeds and the second dump is byte-identical. Non-trivial = "
         "the corrupted position is below the top level and the mutated document still parses as JSON/INI; distinct = SHA-1 "
-        "of document+corruption.")
+        "of document+corruption. Pattern fields additionally receive mechanically derived near misses (single-character edits of valid exemplars rejected by regex-free reference predicates); records sharing an identity get the checksums of ONE copy changed; thorough tier adds an atheris/libFuzzer campaign over the same metamorphic target.")
 ASSUMPTIONS = ["values the readers documentedly coerce (numeric strings for image integers, truthy values for booleans, upper-case release type, empty label) are not corruptions",
                "treeinfo: [header] and [tree] have a documented legacy fallback and are not 'required'; rpms/modules/extra_files: only header and compose section are validated"]
 FLOORS = {"distinct_nontrivial": 1500, "corruption": 600, "neighbourhood-sweep": 300, "metamorphic": 500, "metamorphic:load-succeeded": 100}
@@ -29,7 +30,7 @@ FLOORS = {"distinct_nontrivial": 1500, "corruption": 600, "neighbourhood-sweep":
 DELETE = "<<delete>>"
 TYPES = {"composeinfo": "productmd.composeinfo", "images": "productmd.images", "rpms": "productmd.rpms", "modules": "productmd.modules",
          "extra_files": "productmd.extra_files", "treeinfo": "productmd.treeinfo"}
-BAD_VERSIONS = ["1", "1.2.3", "a.b", "1.x", "", 1.2, None, "1.", ".2", "-1.2", "v1.2", "1,2"]
+BAD_VERSIONS = ["1", "1.2.3", "a.b", "1.x", "", 1.2, None, "1.", ".2", "-1.2", "v1.2", "1,2"] + rules.BAD_HEADER_VERSIONS
 BAD_INT = [None, "x", [], {}]
 
 
@@ -51,13 +52,13 @@ def compose_candidates(prefix):
     out = []
     for v in ["Production", "", None, "prod", 5]:
         out.append((prefix + ["type"], v))
-    for v in ["2015", "201505221", "2015-5-2", "abcdefgh", None, 20150522, ""]:
+    for v in ["2015", "201505221", "2015-5-2", "abcdefgh", None, 20150522, ""] + rules.BAD_DATES:
         out.append((prefix + ["date"], v))
     for v in ["", None, "Foo-1.0", 5]:
         out.append((prefix + ["id"], v))
     for v in [None, "1", 1.5, []]:
         out.append((prefix + ["respin"], v))
-    for v in ["GA", "Beta", "Beta-1", "Beta-1.", "beta-1.0", "RC-1.0.0", "Foo-1.0", 5]:
+    for v in ["GA", "Beta", "Beta-1", "Beta-1.", "beta-1.0", "RC-1.0.0", "Foo-1.0", 5, "RC-100", "RC-20240101"] + rules.BAD_LABELS:
         out.append((prefix + ["label"], v))
     for k in ("id", "type", "date", "respin"):
         out.append((prefix + [k], DELETE))
@@ -82,7 +83,7 @@ def json_candidates(fmt, doc):
         out += [(rel, DELETE), (["payload", "variants"], DELETE)]
         for k in ("name", "version", "short"):
             out.append((rel + [k], DELETE))
-        out += [(rel + ["type"], v) for v in ["bogus", None, "", 5]] + [(rel + ["version"], v) for v in ["1.", "1..2", "1a", "", None, 7]]
+        out += [(rel + ["type"], v) for v in ["bogus", None, "", 5]] + [(rel + ["version"], v) for v in ["1.", "1..2", "1a", "", None, 7] + rules.BAD_NUMERIC_VERSIONS]
         out += [(rel + ["name"], v) for v in [None, 5]] + [(rel + ["short"], v) for v in [None, 5]]
         if "base_product" in p:
             bp = ["payload", "base_product"]
@@ -92,9 +93,16 @@ def json_candidates(fmt, doc):
             var = ["payload", "variants", uid]
             v = p["variants"][uid]
             out += [(var + [k], DELETE) for k in ("id", "uid", "name", "type", "arches", "paths")]
-            out += [(var + ["id"], x) for x in ["a-b", "a b", "", None, "x.y"]] + [(var + ["name"], x) for x in ["", None, 5]]
+            out += [(var + ["id"], x) for x in ["a-b", "a b", "", None, "x.y"] + rules.BAD_VARIANT_IDS[::5]] + [(var + ["name"], x) for x in ["", None, 5]]
             out += [(var + ["type"], x) for x in ["bogus", None, "Variant", ""]] + [(var + ["arches"], x) for x in [[], None, 5]]
             out += [(var + ["uid"], "X" + v["uid"]), (var + ["uid"], v["uid"] + "x")]
+            parents = [u for u in p["variants"] if uid.startswith(u + "-") and uid[len(u) + 1:] in p["variants"][u].get("variants", [])]
+            for par in parents:
+                grands = [g for g in p["variants"] if par.startswith(g + "-") and par[len(g) + 1:] in p["variants"][g].get("variants", [])]
+                for g in grands:
+                    borrowed = sorted(set(p["variants"][g]["arches"]) - set(p["variants"][par]["arches"]))
+                    if borrowed:
+                        out.append((var + ["arches"], sorted(set(v["arches"]) | {borrowed[0]})))      # arch of the grandparent the parent lacks
             out.append((var + ["arches"], sorted(set(v["arches"]) | {"s390x-not-in-parent"})) if "-" in uid and any(
                 uid.startswith(u + "-") and uid[len(u) + 1:] in p["variants"][u].get("variants", []) for u in p["variants"]) else (var + ["type"], "addon-x"))
             if "release" in v:
@@ -128,7 +136,7 @@ def json_candidates(fmt, doc):
                     out += [(img + ["format"], x) for x in ["ISO", "zip", None, ""]] + [(img + ["arch"], x) for x in ["", None, 5]]
                     out += [(img + ["disc_number"], x) for x in BAD_INT] + [(img + ["disc_count"], x) for x in BAD_INT]
                     out += [(img + ["checksums"], x) for x in [{}, None, [["md5", "x"]]]]
-                    out += [(img + ["implant_md5"], x) for x in ["abc", "A" * 32, "0123456789abcdef0123456789abcde-", "a" * 33, "a" * 31, 5, ""]]
+                    out += [(img + ["implant_md5"], x) for x in ["abc", "A" * 32, "0123456789abcdef0123456789abcde-", "a" * 33, "a" * 31, 5, ""] + rules.BAD_MD5[::9]]
                     out += [(img + ["subvariant"], x) for x in [None, 5]] + [(img + ["unified"], x) for x in ["yes", None, 1]]
                     if rec.get("unified"):
                         out += [(img + ["unified"], False), (img + ["unified"], DELETE), (img + ["additional_variants"], "Server"), (img + ["additional_variants"], None)] \
